@@ -43,7 +43,7 @@ def check(prop, tier, verif_seed, only_engine=None, runs_override=None, out=prin
         "evaluations": 0, "nontrivial_keys": set(), "interleavings": set(), "probes": {}, "faults": {},
         "opfail": {}, "checks_sim": 0, "checks_workload": 0, "sim_time": 0.0, "samples": [],
         "timeouts": 0, "known_hits": {}, "harness_errors": [], "digests": 0, "draws": 0,
-        "per_engine": {}, "skipped": 0,
+        "per_engine": {}, "skipped": 0, "margins": {},
     }
     violations = []  # (engine, run_index, invariant, detail, choices)
     rules, comps_real, comps_stub = [], [], []
@@ -68,7 +68,7 @@ def check(prop, tier, verif_seed, only_engine=None, runs_override=None, out=prin
         def on_result(o, engine=engine, per=per, seen_inv=seen_inv, e_keys=e_keys, deadline=deadline):
             nonlocal harness_fail
             if not o.get("ok"):
-                agg["harness_errors"].append({"engine": engine.NAME, "run_index": o.get("run_index"), "error": o.get("error")})
+                agg["harness_errors"].append({"engine": engine.NAME, "run_index": o.get("run_index"), "error": (o.get("error") or "")[-700:]})
                 harness_fail = True
                 return
             if o.get("timeout"):
@@ -84,6 +84,9 @@ def check(prop, tier, verif_seed, only_engine=None, runs_override=None, out=prin
                 agg["faults"][k] = agg["faults"].get(k, 0) + v
             for k, v in o["opfail"].items():
                 agg["opfail"][k] = agg["opfail"].get(k, 0) + v
+            for k, v in o.get("margins", {}).items():
+                if v > agg["margins"].get(k, float("-inf")):
+                    agg["margins"][k] = round(v, 4)
             agg["checks_sim"] += o["checks_sim"]
             agg["checks_workload"] += o["checks_workload"]
             agg["sim_time"] += o["sim_time"]
@@ -178,6 +181,7 @@ def check(prop, tier, verif_seed, only_engine=None, runs_override=None, out=prin
             "per_engine": agg["per_engine"],
             "runs_not_started_batch_wall": agg["skipped"],
             "known_finding_hits": agg["known_hits"],
+            "closest_margins": {"explanation": "largest observed (excess / allowed slack) per tolerance-based comparison; 1.0 would be a violation, negative means strictly inside", "values": agg["margins"]},
             "reported": reported,
             "harness_errors": agg["harness_errors"][:5],
             "jobs": jobs,
